@@ -97,5 +97,7 @@ def run_units(ctx):
         if ok is None:
             ctx.infra_errors.append(f'{name}: {detail}')
             continue
-        ctx.obligations.append(Obligation(name, 'S', 'discharged' if ok else 'failed', clause=clause, detail=detail, unit=name, n_checks=1, n_failed=0 if ok else 1,
+        # a failed side condition means the decomposition / frame argument no longer applies: the proof is UNDECIDED,
+        # it is not by itself a violation of the property (a harmless refactoring can fail it)
+        ctx.obligations.append(Obligation(name, 'S', 'discharged' if ok else 'undecided', clause=clause, detail=('side condition no longer holds: ' + detail) if not ok else '', unit=name, n_checks=1, n_failed=0 if ok else 1,
                                           raw=detail))
